@@ -6,8 +6,8 @@
      c_upd / c_status        a client's SyncerCallbacks
      hold / release          a client's callbacks are blocked / unblocked (no property content)
      quiesce                 upstream has stopped, all gates open, a final marker has reached every client
-   replayed against the property layer P_Typha.  A delivered value must also carry, in its content, the
-   version its revision claims (vv = ver).                                                         *)
+   replayed against the property layer P_Typha.  KVs are [k, ver, val, del]: ver from the KV revision, val
+   from the value's content (0 for a deletion).                                                   *)
 EXTENDS TraceLib, FiniteSets
 
 VARIABLES ucur, uhist, hasIS, isnap, joined, cview
@@ -27,12 +27,10 @@ TReset ==
     /\ ucur' = D!Blank /\ uhist' = {} /\ hasIS' = FALSE /\ isnap' = D!Blank /\ joined' = {}
     /\ cview' = [c \in TClients |-> D!Blank]
 
-ValuesGenuine(kvs) == \A i \in DOMAIN kvs : ~kvs[i].del => kvs[i].vv = kvs[i].ver
-
 TUp == IsEvent("up") /\ D!UpSeq(Cur.kvs)
 TUStatus == IsEvent("ustatus") /\ D!UStatus(Cur.s)
 TJoin == IsEvent("cjoin") /\ D!CJoin(Cur.c)
-TCUpd == IsEvent("c_upd") /\ ValuesGenuine(Cur.kvs) /\ D!CUpdates(Cur.c, Cur.kvs)
+TCUpd == IsEvent("c_upd") /\ D!CUpdates(Cur.c, Cur.kvs)
 TCStatus == IsEvent("c_status") /\ D!CStatus(Cur.c, Cur.s)
 THold == (IsEvent("hold") \/ IsEvent("release")) /\ UNCHANGED vars
 TQuiesce == IsEvent("quiesce") /\ D!Quiesce
